@@ -366,7 +366,7 @@ class WebSocketApp:
             if reconnecting and self.sock:
                 self.sock.shutdown()
 
-            self.sock = WebSocket(
+            sock = self.sock = WebSocket(
                 self.get_mask_key,
                 sockopt=sockopt,
                 sslopt=sslopt,
@@ -376,11 +376,11 @@ class WebSocketApp:
                 dispatcher=dispatcher,
             )
 
-            self.sock.settimeout(getdefaulttimeout())
+            sock.settimeout(getdefaulttimeout())
             try:
                 header = self.header() if callable(self.header) else self.header
 
-                self.sock.connect(
+                sock.connect(
                     self.url,
                     header=header,
                     cookie=self.cookie,
@@ -396,6 +396,12 @@ class WebSocketApp:
                     proxy_type=proxy_type,
                     socket=self.prepared_socket,
                 )
+
+                if self.sock is not sock:
+                    # close() was called from another thread while connecting
+                    sock.close()
+                    teardown()
+                    return
 
                 _logging.info("Websocket connected")
 
